@@ -504,7 +504,7 @@ theorem upstream_cell_lt (P : Pb) (nc : Nat) (hcell : ∀ i ∈ P.T, i.cell < nc
 theorem faceFlux_as_upstream_value (P : Pb) (hwf : WF P.T) (nc : Nat) (c bv : Nat → Rat) (m M : Rat)
     (hcell : ∀ i ∈ P.T, i.cell < nc)
     (hc : ∀ j, j < nc → m ≤ c j ∧ c j ≤ M)
-    (hneu : ∀ f, P.isNeu f = true → P.q f = 0 ∧ bv f = 0)
+    (hneu : ∀ i ∈ P.T, P.isNeu i.face = true → P.q i.face = 0 ∧ bv i.face = 0)
     (hnoerr : ∀ i ∈ P.T, P.q i.face ≠ 0 → upErr P i.face = false)
     (hbv : ∀ i ∈ P.T, inflowDir P i.face = true → P.q i.face ≠ 0 → m ≤ bv i.face ∧ bv i.face ≤ M)
     (i : Inc) (hi : i ∈ P.T) :
@@ -516,11 +516,11 @@ theorem faceFlux_as_upstream_value (P : Pb) (hwf : WF P.T) (nc : Nat) (c bv : Na
     unfold faceFlux neuDiag
     cases hn : P.isNeu i.face
     · simp [hq]
-    · simp [hq, (hneu _ hn).2]
+    · simp [hq, (hneu i hi hn).2]
   · have hn : P.isNeu i.face = false := by
       cases hn : P.isNeu i.face
       · rfl
-      · exact absurd (hneu _ hn).1 hq
+      · exact absurd (hneu i hi hn).1 hq
     have hnd : neuDiag P i.face = 0 := by unfold neuDiag; simp [hn]
     cases hu : upstream P i.face with
     | some j =>
@@ -566,7 +566,7 @@ theorem arith_term (s q x ck m M : Rat) (hx1 : m ≤ x) (hx2 : x ≤ M) (hout : 
 theorem divAt_faceFlux_bounds (P : Pb) (hwf : WF P.T) (nc : Nat) (c bv : Nat → Rat) (m M : Rat)
     (hcell : ∀ i ∈ P.T, i.cell < nc)
     (hc : ∀ j, j < nc → m ≤ c j ∧ c j ≤ M)
-    (hneu : ∀ f, P.isNeu f = true → P.q f = 0 ∧ bv f = 0)
+    (hneu : ∀ i ∈ P.T, P.isNeu i.face = true → P.q i.face = 0 ∧ bv i.face = 0)
     (hnoerr : ∀ i ∈ P.T, P.q i.face ≠ 0 → upErr P i.face = false)
     (hbv : ∀ i ∈ P.T, inflowDir P i.face = true → P.q i.face ≠ 0 → m ≤ bv i.face ∧ bv i.face ≤ M)
     (k : Nat) :
